@@ -2,7 +2,24 @@
 import numpy as np
 
 
-def build(seed, case, mapping, nfreq=1):
+def electrodes(variant):
+    """sources and receivers: 'dipoles' = two electric dipoles, absolute receivers; 'loop' = a CLOSED wire loop (first electrode repeated at the
+    end), a magnetic dipole and an electric dipole, with absolute and source-relative electric and magnetic receivers"""
+    import emg3d
+    if variant == 'dipoles':
+        src = {'TxED-1': emg3d.TxElectricDipole((-40.0, 5.0, -90.0, 15, 5)), 'TxED-2': emg3d.TxElectricDipole((35.0, -10.0, -110.0, 80, -10))}
+        rec = {'RxEP-1': emg3d.RxElectricPoint((10.0, 30.0, -120.0, 0, 0)), 'RxEP-2': emg3d.RxElectricPoint((-20.0, -35.0, -80.0, 45, 20)),
+               'RxMP-1': emg3d.RxMagneticPoint((25.0, 15.0, -100.0, 20, 5))}
+        return src, rec
+    src = {'TxEW-1': emg3d.TxElectricWire([[-60.0, -40.0, -100.0], [40.0, -40.0, -95.0], [40.0, 50.0, -105.0], [-60.0, -40.0, -100.0]], strength=2.0),
+           'TxMD-2': emg3d.TxMagneticDipole([[-20.0, 25.0, -125.0], [-20.0, 25.0, -65.0]], strength=3.0),
+           'TxED-3': emg3d.TxElectricDipole((20.0, -10.0, -105.0, 60, 10))}
+    rec = {'RxEP-1': emg3d.RxElectricPoint((-30.0, 40.0, -120.0, 30, 10)), 'RxMP-2': emg3d.RxMagneticPoint((50.0, 30.0, -15.0, 20, 5), relative=True),
+           'RxEP-3': emg3d.RxElectricPoint((45.0, 25.0, 10.0, -40, 15), relative=True), 'RxMP-4': emg3d.RxMagneticPoint((60.0, -45.0, -85.0, 70, -10))}
+    return src, rec
+
+
+def build(seed, case, mapping, nfreq=1, variant='dipoles'):
     import emg3d
     rng = np.random.default_rng(seed)
     h = [40.0 * 1.08 ** np.abs(np.arange(8) - 3.5) for _ in range(3)]
@@ -17,16 +34,14 @@ def build(seed, case, mapping, nfreq=1):
             kw['property_y'] = mp.forward(1.0 / rng.uniform(0.7 * scale, 1.6 * scale, grid.shape_cells))
         return emg3d.Model(grid, **kw)
     true, start = mk(1.0), mk(1.3)
-    src = {'TxED-1': emg3d.TxElectricDipole((-40.0, 5.0, -90.0, 15, 5)), 'TxED-2': emg3d.TxElectricDipole((35.0, -10.0, -110.0, 80, -10))}
-    rec = {'RxEP-1': emg3d.RxElectricPoint((10.0, 30.0, -120.0, 0, 0)), 'RxEP-2': emg3d.RxElectricPoint((-20.0, -35.0, -80.0, 45, 20)),
-           'RxMP-1': emg3d.RxMagneticPoint((25.0, 15.0, -100.0, 20, 5))}
+    src, rec = electrodes(variant)
     survey = emg3d.Survey(sources=src, receivers=rec, frequencies=[1.0, 3.0][:nfreq], noise_floor=1e-15, relative_error=0.05)
     opts = dict(gridding='same', max_workers=1, receiver_interpolation='linear', solver_opts=dict(tol=1e-9, tol_gradient=1e-9, maxit=60, verb=0),
                 tqdm_opts=dict(disable=True), verb=-1)
     s0 = emg3d.Simulation(survey, true, **opts)
     s0.compute(observed=True, add_noise=False)
     survey = s0.survey
-    survey.data['observed'].data[0, 1, 0] = np.nan + 1j * np.nan
+    survey.data['observed'].data[(0, 1, 0) if variant == 'dipoles' else (2, 0, 0)] = np.nan + 1j * np.nan
     return survey, start, opts, rng
 
 
@@ -36,13 +51,48 @@ def misfit(survey, model, opts):
     return float(s.misfit)
 
 
+def sampling_positions(seed):
+    """the reported synthetic datum of every (source, receiver) is the field of that source sampled at the receiver's absolute position:
+    its own coordinates, or (relative receiver) its offset from the centre of the source (source.center) -- the position at which the residual
+    is back-propagated.  Positions computed here from the coordinates handed to the constructors; fields sampled with Field.get_receiver."""
+    import emg3d
+    survey, model, opts, rng = build(seed, 'isotropic', 'Conductivity', 1, variant='loop')
+    src, rec = electrodes('loop')
+    sim = emg3d.Simulation(survey.copy(), model, **opts)
+    sim.compute()
+    n = 0
+    for sn, s_ in src.items():
+        pts = np.asarray(s_.points, float)
+        centre = np.array(survey.sources[sn].center, float)           # the centre the source reports
+        ef = sim.get_efield(sn, 'f-1')
+        hf = emg3d.fields.get_magnetic_field(sim.model, ef)
+        for rn, r_ in rec.items():
+            c = np.array(r_.coordinates, float)
+            pos = np.r_[c[:3] + (centre if r_.relative else 0.0), c[3:]]
+            fld = ef if isinstance(r_, emg3d.RxElectricPoint) else hf
+            want = complex(np.squeeze(fld.get_receiver(tuple(pos), method='linear')))
+            got = complex(sim.data['synthetic'].loc[sn, rn, 'f-1'].data)
+            n += 1
+            if not np.isfinite(want) or abs(got - want) > 1e-9 * abs(want):
+                return n, dict(reproduced=True, cases=n, clause='synthetic datum == field of the source sampled at the absolute receiver position (relative receiver: offset from the '
+                               'source centre), where the residual is back-propagated from', source=sn, receiver=rn, relative=bool(r_.relative),
+                               source_electrodes=pts.tolist(), source_centre=centre.tolist(), position_required=pos.tolist(), datum=str(got), field_at_required_position=str(want),
+                               how='contracts.c07_concrete.sampling_positions: emg3d.Simulation.compute on a stretched 8x8x8 grid; closed wire loop, magnetic dipole, electric dipole; '
+                                   'absolute and relative electric / magnetic point receivers')
+    return n, None
+
+
 def check(tier='quick', seed=0):
     import emg3d
-    cases = 0
-    cfgs = [('VTI', 'LgResistivity', 1), ('isotropic', 'Resistivity', 1)] if tier == 'quick' else [('isotropic', 'Resistivity', 2), ('VTI', 'LgResistivity', 1), ('HTI', 'Conductivity', 1), ('triaxial', 'LnConductivity', 1)]
+    cases, bad = sampling_positions(seed)
+    if bad is not None:
+        return bad
+    cfgs = [('VTI', 'LgResistivity', 1, 'dipoles'), ('isotropic', 'Resistivity', 1, 'dipoles'), ('isotropic', 'Conductivity', 1, 'loop')] if tier == 'quick' else \
+        [('isotropic', 'Resistivity', 2, 'dipoles'), ('VTI', 'LgResistivity', 1, 'dipoles'), ('HTI', 'Conductivity', 1, 'dipoles'), ('triaxial', 'LnConductivity', 1, 'dipoles'),
+         ('isotropic', 'Conductivity', 1, 'loop'), ('VTI', 'LgConductivity', 1, 'loop')]
     ndir = 2 if tier == 'quick' else 6
-    for case, mapping, nfreq in cfgs:
-        survey, model, opts, rng = build(seed, case, mapping, nfreq)
+    for case, mapping, nfreq, variant in cfgs:
+        survey, model, opts, rng = build(seed, case, mapping, nfreq, variant)
         sim = emg3d.Simulation(survey.copy(), model, **opts)
         g = np.asarray(sim.gradient)
         names = ['property_x'] + (['property_y'] if case in ('HTI', 'triaxial') else []) + (['property_z'] if case in ('VTI', 'triaxial') else [])
@@ -64,9 +114,10 @@ def check(tier='quick', seed=0):
                 vals.append((mfs[0] - mfs[1]) / (2 * eps))
             fd = vals[1] + (vals[1] - vals[0]) / 3.0          # Richardson (second order in the step)
             if abs(fd - gd) > 2e-3 * max(abs(fd), abs(gd), 1e-30):
-                return dict(reproduced=True, cases=cases, clause='directional derivative of the misfit == <gradient, direction>', case=case, mapping=mapping,
+                return dict(reproduced=True, cases=cases, clause='directional derivative of the misfit == <gradient, direction>', case=case, mapping=mapping, electrodes=variant,
                             finite_difference=fd, gradient_dot_direction=gd, rel=abs(fd - gd) / max(abs(fd), abs(gd)),
-                            how='contracts.c07_concrete.check: emg3d.Simulation on a stretched 8x8x8 grid, 2 sources, electric+magnetic receivers, NaN datum')
+                            how='contracts.c07_concrete.check: emg3d.Simulation on a stretched 8x8x8 grid, 2 electric dipoles + absolute receivers (dipoles) / closed wire loop + '
+                                'magnetic dipole + electric dipole with absolute and relative receivers (loop), electric+magnetic receivers, NaN datum')
     # the gradient belongs to the CURRENT data: change which data are missing after a first evaluation, on the same survey object
     survey, model, opts, rng = build(seed, 'isotropic', 'Resistivity', 1)
     sv = survey.copy()
